@@ -222,8 +222,11 @@ func (*reader).Advance
   ensures readerInv(r)
   ensures [moved] remaining(r) == old(remaining(r)) - n
   ensures [sameLine] n < old(r.pos.Padding + r.pos.Stop - r.pos.Start) ==> (r.line == old(r.line) && r.head == old(r.head) && r.pos.Stop == old(r.pos.Stop))
+  ensures [lastLine] (n == old(r.pos.Padding + r.pos.Stop - r.pos.Start) && old(r.pos.Start < r.pos.Stop && r.source[r.pos.Stop-1] != '\n')) ==> r.line == old(r.line)
   ensures r.peekedLine == nil && r.lineOffset == -1
   modifies r.lineOffset, r.peekedLine, r.pos, r.head, r.line
+  loop 0 inv [lastLine] ((old(n) - n) <= old(r.pos.Padding + r.pos.Stop - r.pos.Start) && old(r.pos.Start < r.pos.Stop && r.source[r.pos.Stop-1] != '\n')) ==> (r.line == old(r.line) && r.pos.Stop == old(r.pos.Stop) &&
+     r.pos.Padding + r.pos.Stop - r.pos.Start == old(r.pos.Padding + r.pos.Stop - r.pos.Start) - (old(n) - n))
   loop 0 inv readerInv(r) && r.peekedLine == nil && r.lineOffset == -1 && 0 <= n && l == r.sourceLength
   loop 0 inv [moved] remaining(r) - n == old(remaining(r)) - old(n)
   loop 0 inv [sameLine] (old(n) - n) < old(r.pos.Padding + r.pos.Stop - r.pos.Start) ==> (r.line == old(r.line) && r.head == old(r.head) && r.pos.Stop == old(r.pos.Stop) && r.pos.Padding + r.pos.Stop - r.pos.Start == old(r.pos.Padding + r.pos.Stop - r.pos.Start) - (old(n) - n))
@@ -438,6 +441,8 @@ iface text.Reader.Advance
   ensures rdOK(recv)
   ensures [moved] rdRem(recv) == old(rdRem(recv)) - arg0
   ensures [sameLine] (old(rdLive(recv)) && arg0 < old(rdLen(recv))) ==> (rdLive(recv) && rdLine(recv) == old(rdLine(recv)) && rdStop(recv) == old(rdStop(recv)) && rdLen(recv) == old(rdLen(recv)) - arg0)
+  // consuming a whole line that does not end in a newline (the last line of the source) stays on that line
+  ensures [lastLine] (plainReader(recv) && old(rdLive(recv)) && arg0 == old(rdLen(recv)) && old(srcByte(recv, rdStop(recv) - 1)) != '\n') ==> rdLine(recv) == old(rdLine(recv))
   modifies rdRep, rdLive, rdLine, rdStart, rdStop, rdPad, rdRem
 
 iface text.Reader.AdvanceLine
@@ -449,6 +454,7 @@ iface text.Reader.AdvanceAndSetPadding
   requires rdOK(recv) && 0 <= arg0 && arg0 <= rdRem(recv) && arg1 >= 0
   ensures rdOK(recv)
   ensures [sameLine] (old(rdLive(recv)) && arg0 < old(rdLen(recv))) ==> (rdLive(recv) && rdLine(recv) == old(rdLine(recv)) && rdStop(recv) == old(rdStop(recv)))
+  ensures [lastLine] (plainReader(recv) && old(rdLive(recv)) && arg0 == old(rdLen(recv)) && old(srcByte(recv, rdStop(recv) - 1)) != '\n') ==> rdLine(recv) == old(rdLine(recv))
   modifies rdRep, rdLive, rdLine, rdStart, rdStop, rdPad, rdRem
 
 iface text.Reader.SetPadding
